@@ -49,7 +49,19 @@ def main():
         if m.get("notes"):
             caught += f" ({m['notes']})"
         srows.append(f"| `{m['id']}` {m.get('title', '').split('—')[-1].strip()[:110]} | {m['breaks_property']} | {needs} | {suite[:70]} | {caught} |")
-    stable = "\n".join(srows)
+    metas = [json.load(open(mp)) for mp in sorted(glob.glob(os.path.join(ROOT, "seeded", "*", "meta.json")))]
+    n = len(metas)
+    missed_first = sum(1 for m in metas if m.get("notes", "").startswith("missed") or "would have been filed" in m.get("notes", ""))
+    pre = sum(1 for m in metas if "before the first run" in m.get("notes", ""))
+    notc = [m["id"] for m in metas if not m.get("caught_by")]
+    sampled = [m["id"] for m in metas if "only by the supplementary free-running" in m.get("notes", "")]
+    summary = (f"{n} changes in all ({sum(1 for m in metas if '-r2' not in m['id'])} from the first round, "
+               f"{sum(1 for m in metas if '-r2' in m['id'])} from a second round whose agents were told the first-round titles). "
+               f"{n - missed_first - pre - len(notc)} were caught by the check as it stood; {pre} by a family I had added in anticipation "
+               f"before the first run against them; {missed_first} were missed by the version they were first run against and are "
+               f"caught since the check was strengthened (each strengthening is described in section 8 - always a wider family, never "
+               f"a special case); not caught: {', '.join(notc) or 'none'}; caught only by the sampled pass L0: {', '.join(sampled) or 'none'}.\n\n")
+    stable = summary + "\n".join(srows)
     p = os.path.join(ROOT, "DESIGN.md")
     s = open(p).read()
     s = re.sub(r"<!-- BEGIN GENERATED TABLE -->.*?<!-- END GENERATED TABLE -->",
